@@ -296,7 +296,7 @@ def miri_supplement(chk, seed, procs=12, runs=3):
 
 def c06(pid, tier, seed):
     chk = C.Check(pid, tier, seed)
-    chk.rule = ("histories over {export(T), export_all(T), export_all_to(T, spelling)} for the 11-type universe of harness/fixed (two shared files, one of them holding a generic type and a sibling named like it plus a digit, "
+    chk.rule = ("histories over {export(T), export_all(T), export_all_to(T, spelling)} for the 15-type universe of harness/fixed (three shared files, one holding two types that import different types of the same name, one of them holding a generic type and a sibling named like it plus a digit, "
                 "a dependency chain, a cycle, a `../` escape): every ordered pair of (type, entry point) for one directory configuration per "
                 "shard + seeded random histories of length 1..4 (thorough: 1..5) x 6 TS_RS_EXPORT_DIR settings x 6 directory spellings x "
                 "{empty, stale garbage, previous run}; one registry lifetime per history (reset hook). Oracle: final tree == canonical tree of the "
